@@ -40,7 +40,11 @@ func VerifC10Cid() {
 	if pos < 36 {
 		if verifParam("allvalues", 0) == 0 || pos < 4 { // the 4 header bytes (version, codec, hash code, hash length) always use the small value set
 			w := want[pos]
-			verifAssume(b == w || b == w^1 || b == w^0x80 || b == ^w || b == 0 || b == 0x7f)
+			if verifParam("fewvalues", 0) == 1 {
+				verifAssume(b == w || b == w^1 || b == w^0x80 || b == ^w)
+			} else {
+				verifAssume(b == w || b == w^1 || b == w^0x80 || b == ^w || b == 0 || b == 0x7f)
+			}
 		}
 		stored[pos] = b
 	} else {
@@ -76,11 +80,15 @@ func VerifC10Cid() {
 	if err == nil {
 		same := pos < 36 && b == want[pos]
 		verifAssert(same, "C10.cid: a section carrying another CID is returned for the wanted CID")
-		verifAssert(bytes.Equal(got, data), "C10.cid: returned bytes are not the payload stored under the wanted CID")
+		if prefix == byte(len(stored)+dl) { // well-formed section: the prefix announces exactly CID + payload
+			verifAssert(bytes.Equal(got, data), "C10.cid: returned bytes are not the payload stored under the wanted CID")
+		}
 		verifReach("served")
 	} else {
 		if pos < 36 {
-			verifAssert(b != want[pos], "C10.cid: the section of the wanted CID itself is refused")
+			// (claimed for a well-formed section only: a reader may also check the length prefix)
+			wellFormed := byte(len(stored) + dl)
+			verifAssert(verifIteU64(b != want[pos], 1, 0)+verifIteU64(prefix != wellFormed, 1, 0) != 0, "C10.cid: the well-formed section of the wanted CID itself is refused")
 		}
 		verifReach("refused")
 	}
